@@ -9,6 +9,7 @@ result, which is what makes the rules robust against behaviour-preserving refact
 from __future__ import annotations
 
 import ast
+import re
 
 from . import sym as S
 from .flow import CFG, Def, Node
@@ -288,6 +289,69 @@ class Recon:
             return ("func", "builtin:" + name)
         return S.unk("global:" + name)
 
+    def _namedtuple_fields(self, classkey):
+        """Field names of a typing.NamedTuple class of the package (annotated class-body names, in order), else None."""
+        ci = self._class_by_key(classkey)
+        if ci is None or not any(b.split(".")[-1] == "NamedTuple" for b in ci.bases):
+            return None
+        return [s_.target.id for s_ in ci.node.body if isinstance(s_, ast.AnnAssign) and isinstance(s_.target, ast.Name)]
+
+    def _construct(self, classkey, args, kws):
+        """Construction of a class instance.  An instance of a NamedTuple class *is* the tuple of its fields: it is represented
+        as that tuple (so `run.offset`, `run[0]` and `offset, size = run` all denote the same component); which class a tuple
+        term came from is remembered for attribute access."""
+        fields = self._namedtuple_fields(classkey)
+        if fields is not None:
+            ci = self._class_by_key(classkey)
+            vals = list(args)
+            kw = dict(kws)
+            ok = len(vals) <= len(fields)
+            for f_ in fields[len(vals):]:
+                if f_ in kw:
+                    vals.append(kw.pop(f_))
+                elif f_ in ci.class_assigns and len(ci.class_assigns[f_]) == 1:
+                    vals.append(self._module_level(ci.mod, ci.class_assigns[f_][0]))
+                else:
+                    ok = False
+            if ok and not kw and len(vals) == len(fields):
+                t = ("tuple", tuple(vals))
+                self.__dict__.setdefault("_nt_terms", {})[t] = classkey
+                return t
+        return S.call("new:" + classkey, args, kws)
+
+    def _namedtuple_of(self, base):
+        """The NamedTuple class a term is an instance of: a tuple built by its constructor, or an element of what a generator /
+        function of the package produces when all it yields / returns are such tuples."""
+        reg = self.__dict__.setdefault("_nt_terms", {})
+        if base in reg:
+            return reg[base]
+        if base[0] in ("ite", "join"):
+            ks = {self._namedtuple_of(a) for a in S.alternatives(base)}
+            return ks.pop() if len(ks) == 1 and None not in ks else None
+        if base[0] == "iter" and base[2] is None and base[1][0] == "call":
+            name = base[1][1]
+            cache = self.__dict__.setdefault("_nt_yields", {})
+            if name not in cache:
+                cache[name] = None
+                fdef = self._func_by_key(name) if "::" in name else None
+                if fdef is not None:
+                    fctx = self.ctx_of(fdef)
+                    ks = set()
+                    produced = [y.value for y in ast.walk(fdef) if isinstance(y, ast.Yield) and y.value is not None]
+                    if not produced:
+                        # not a generator: the elements of the list it builds and returns
+                        produced = [c.args[0] for c in ast.walk(fdef) if isinstance(c, ast.Call) and isinstance(c.func, ast.Attribute)
+                                    and c.func.attr == "append" and len(c.args) == 1]
+                    for y in produced:
+                        try:
+                            ks.add(self._namedtuple_of(self.expr(fctx, y, fctx.cfg.node_for(y))))
+                        except Exception:
+                            ks.add(None)
+                    if len(ks) == 1 and None not in ks:
+                        cache[name] = ks.pop()
+            return cache[name]
+        return None
+
     def _class_level(self, c, name):
         """A class attribute that is not a constant: an object built from constants (ENTRY = struct.Struct(">I")) is its call term."""
         t = self._module_level(c.mod, c.class_assigns[name][0])
@@ -337,7 +401,10 @@ class Recon:
                             pdefs = ctx.cfg.rd_out[p].get(name)
                             if not pdefs:
                                 continue
-                            if all(d.node not in body for d in pdefs):
+                            if all(d.node not in body for d in pdefs) and len(pdefs) > 1:
+                                # several definitions in front of the loop (`n = a; if c: n += 1`): the gated value, not a plain join
+                                entry.append(self._from_defs(ctx, name, pdefs, p, binds, depth + 1, True))
+                            elif all(d.node not in body for d in pdefs):
                                 entry += [self._def(ctx, d, binds, depth + 1) for d in sorted(pdefs, key=lambda d: d.node.id)]
                             else:
                                 entry.append(self._from_defs(ctx, name, pdefs, p, binds, depth + 1, True))
@@ -362,8 +429,15 @@ class Recon:
                     if g is not None:
                         return g
                 return phi
-        gated = self._gate(ctx, [(d.stmt, d) for d in defs if d.stmt is not None], ctx.func,
-                           lambda d: self._def(ctx, d, binds, depth + 1), binds, depth) if all(d.stmt is not None for d in defs) else None
+        params = [d for d in defs if d.stmt is None and d.kind == "param"]
+        if all(d.stmt is not None for d in defs):
+            gated = self._gate(ctx, [(d.stmt, d) for d in defs], ctx.func, lambda d: self._def(ctx, d, binds, depth + 1), binds, depth)
+        elif len(params) == 1 and all(d.stmt is not None for d in defs if d is not params[0]) and not at.loops:
+            # a parameter that is conditionally re-assigned: its entry value is what the assignments replace
+            gated = self._gate_block(ctx, [(ctx.func, params[0])] + [(d.stmt, d) for d in defs if d is not params[0]], ctx.func,
+                                     lambda d: self._def(ctx, d, binds, depth + 1), binds, depth)
+        else:
+            gated = None
         if gated is not None:
             return gated
         alts = _dedup([self._def(ctx, d, binds, depth + 1) for d in defs])
@@ -444,13 +518,13 @@ class Recon:
         by_stmt = {}
         fallback = None
         for st, payload in items:
-            if isinstance(st, (ast.While, ast.For)):
-                fallback = (st, payload)  # the value carried into this round of the loop
+            if isinstance(st, (ast.While, ast.For, ast.FunctionDef, ast.AsyncFunctionDef)):
+                fallback = (st, payload)  # the value carried into this round of the loop / the parameter's value on entry
             else:
                 by_stmt[id(st)] = payload
         if not by_stmt:
             return value_of(fallback[1]) if fallback else None
-        stmts = [st for st, _ in items if not isinstance(st, (ast.While, ast.For))]
+        stmts = [st for st, _ in items if not isinstance(st, (ast.While, ast.For, ast.FunctionDef, ast.AsyncFunctionDef))]
 
         def holds(node):
             return [st for st in stmts if any(x is st for x in ast.walk(node))]
@@ -819,6 +893,16 @@ class Recon:
                 pass
         if k == "self":
             return self.self_attr(base[1], name, depth)
+        if k in ("tuple", "iter", "ite", "join"):
+            ntk = self._namedtuple_of(base)
+            if ntk is not None:
+                fields = self._namedtuple_fields(ntk)
+                if fields and name in fields:
+                    idx = fields.index(name)
+                    if k == "tuple":
+                        return base[1][idx]
+                    if k == "iter":
+                        return ("iter", base[1], idx)
         if k == "call" and base[1].startswith("new:"):
             v = self.self_attr(base[1][4:], name, depth)
             # an attribute of THIS instance: the constructor's parameters are the arguments of this construction
@@ -1107,7 +1191,7 @@ class Recon:
                 if fdef is not None:
                     return self.call_func(target[1], fdef, args, kws, depth)
             if target[0] in ("cls",):
-                return S.call("new:" + target[1], args, kws)
+                return self._construct(target[1], args, kws)
             if target[0] == "c" and isinstance(target[1], CType):
                 return self._ctype_call(ctx, node, target[1], S.C(1), args, kws)
             if target[0] == "arrtype":
@@ -1161,7 +1245,7 @@ class Recon:
                 return self.call_func(nm, fdef, args, kws, depth)
             return S.call(nm, args, kws)
         if f[0] == "cls":
-            return S.call("new:" + f[1], args, kws)
+            return self._construct(f[1], args, kws)
         if f[0] == "mod" and str(f[1]).startswith("ext:"):
             return S.call(f[1], args, kws)
         if f[0] == "c" and isinstance(f[1], CType):
@@ -1199,8 +1283,10 @@ class Recon:
             # ordinal among calls whose callee text mentions a layout variable is fragile;
             # instead number *all* calls with identical unparsed callee text
             ctx._read_sites = sites
-        txt = ast.unparse(node.func)
-        same = [n for n in ctx._read_sites if ast.unparse(n.func) == txt]
+        # (names introduced by inlining carry a per-inlining prefix: two inlined copies of one helper are two sites of the same callee)
+        norm = lambda n: re.sub(r"__hv\d+_", "", ast.unparse(n.func))  # noqa: E731
+        txt = norm(node)
+        same = [n for n in ctx._read_sites if norm(n) == txt]
         try:
             return same.index(node)
         except ValueError:
